@@ -1,7 +1,7 @@
 (* Proofs/RootsRing.v -- what laguer's inner loop and the forward deflation compute, over any
    commutative ring (RingLaws on KK; nothing is assumed of RR, of the oracles, of the comparisons). *)
 From Coq Require Import List Arith Bool Lia Ring.
-From OV Require Import Base.Panic Base.Arith Model.Complex gen.Params Model.Roots.
+From OV Require Import Base.Panic Base.Arith Model.Complex gen.Params Model.Roots Proofs.Roots Proofs.RootsMore.
 Import ListNotations.
 
 Section Ring.
@@ -24,6 +24,17 @@ Fixpoint hv (l : list K) (x : K) : K :=            (* P''(x)/2:  P''/2 = Q' + X 
 Fixpoint tv (l : list K) (x t : K) : K :=          (* the rest of the Taylor expansion *)
   match l with [] => zero | c :: p => hv p x + (x + t) * tv p x t end.
 
+(* the running error bound the inner loop accumulates next to p(x):
+   err(a_m) = |a_m| ;  err(c + X Q) = |(c + X Q)(x)| + |x| * err(Q)   (values of the partial Horner sums) *)
+Fixpoint errv (l : list K) (x : K) : RR RA :=
+  match l with
+  | [] => zero
+  | c :: p => match p with
+              | [] => kabs RA c
+              | _ => add (kabs RA (ev l x)) (mul (kabs RA x) (errv p x))
+              end
+  end.
+
 (* ev, dv, hv ARE p(x), p'(x), p''(x)/2: the Taylor expansion at x, valid in every commutative ring *)
 Lemma taylor_lemma l x t :
   ev l (x + t) = ev l x + t * dv l x + t * t * hv l x + t * t * t * tv l x t.
@@ -37,12 +48,29 @@ Fixpoint pdv (f : nat -> K) (lo n : nat) (t : K) : K :=
 Fixpoint phv (f : nat -> K) (lo n : nat) (t : K) : K :=
   match n with 0 => zero | S n' => pdv f (S lo) n' t + t * phv f (S lo) n' t end.
 
+Fixpoint perr (f : nat -> K) (lo n : nat) (t : K) : RR RA :=
+  match n with
+  | 0 => zero
+  | S n' => match n' with
+            | 0 => kabs RA (f lo)
+            | _ => add (kabs RA (pev f lo n t)) (mul (kabs RA t) (perr f (S lo) n' t))
+            end
+  end.
+
 Lemma pev_map f lo n t : pev f lo n t = ev (map f (seq lo n)) t.
 Proof. revert lo; induction n as [|n IH]; intros lo; cbn; [reflexivity | now rewrite IH]. Qed.
 Lemma pdv_map f lo n t : pdv f lo n t = dv (map f (seq lo n)) t.
 Proof. revert lo; induction n as [|n IH]; intros lo; cbn; [reflexivity | now rewrite IH, pev_map]. Qed.
 Lemma phv_map f lo n t : phv f lo n t = hv (map f (seq lo n)) t.
 Proof. revert lo; induction n as [|n IH]; intros lo; cbn; [reflexivity | now rewrite IH, pdv_map]. Qed.
+
+Lemma perr_map f lo n t : perr f lo n t = errv (map f (seq lo n)) t.
+Proof.
+  revert lo; induction n as [|n IH]; intros lo; [reflexivity|].
+  destruct n as [|n]; [reflexivity|].
+  change (perr f lo (S (S n)) t) with (add (kabs RA (pev f lo (S (S n)) t)) (mul (kabs RA t) (perr f (S lo) (S n) t))).
+  rewrite IH, pev_map. reflexivity.
+Qed.
 
 Lemma map_nth_seq (l : list K) lo n : lo + n <= length l ->
   map (fun i => nth i l zero) (seq lo n) = firstn n (skipn lo l).
@@ -67,7 +95,8 @@ Definition ix (l : list K) : nat -> K := fun i => nth i l zero.
 (* ---------- laguer's inner loop ---------- *)
 Lemma horner3_index a m x b err d f :
   horner3 RA a m x = Ok (b, err, d, f) ->
-  m < length a /\ b = pev (ix a) 0 (m + 1) x /\ d = pdv (ix a) 0 (m + 1) x /\ f = phv (ix a) 0 (m + 1) x.
+  m < length a /\ b = pev (ix a) 0 (m + 1) x /\ d = pdv (ix a) 0 (m + 1) x /\ f = phv (ix a) 0 (m + 1) x /\
+  err = perr (ix a) 0 (m + 1) x.
 Proof.
   unfold horner3. intros E. set (g := ix a).
   apply bind_ok in E as (am & Eam & E).
@@ -75,32 +104,67 @@ Proof.
   split; [exact Hm|].
   unfold for_rev in E. rewrite Nat.sub_0_r in E.
   pose (I := fun (k : nat) (s : K * (T (SA (RR RA))) * K * K) =>
-     let '(b, _, d, f) := s in
-     b = pev g k (m + 1 - k) x /\ d = pdv g k (m + 1 - k) x /\ f = phv g k (m + 1 - k) x).
+     let '(b, e, d, f) := s in
+     b = pev g k (m + 1 - k) x /\ d = pdv g k (m + 1 - k) x /\ f = phv g k (m + 1 - k) x /\
+     e = perr g k (m + 1 - k) x).
   apply (for_rev_from_inv_partial I) in E.
   - unfold I in E. rewrite Nat.sub_0_r in E. exact E.
-  - unfold I. replace (m + 1 - m)%nat with (1)%nat by lia. cbn [pev pdv phv]. change (g m) with (nth m a zero). rewrite <- Ham.
-    repeat split; ring.
+  - unfold I. replace (m + 1 - m)%nat with (1)%nat by lia. cbn [pev pdv phv perr]. change (g m) with (nth m a zero). rewrite <- Ham.
+    repeat split; try ring.
   - intros k [[[b0 e0] d0] f0] [[[b1 e1] d1] f1] Hk HI Eb. unfold I in *.
-    destruct HI as (Hb & Hd & Hf).
+    destruct HI as (Hb & Hd & Hf & He).
     unfold horner_body in Eb. cbn [Nat.add] in Eb.
     apply bind_ok in Eb as (aj & Eaj & Eb).
     apply (rd_Ok_inv _ _ _ zero) in Eaj as (_ & Haj).
-    injection Eb as <- _ <- <-.
-    replace (m + 1 - k)%nat with ((S (m + 1 - S k)))%nat by lia. cbn [pev pdv phv].
-    rewrite <- Hb, <- Hd, <- Hf. change (g k) with (nth k a zero). rewrite <- Haj.
-    repeat split; ring.
+    injection Eb as <- <- <- <-.
+    replace (m + 1 - k)%nat with ((S (S (m - S k))))%nat by lia.
+    replace (m + 1 - S k)%nat with ((S (m - S k)))%nat in Hb, Hd, Hf, He by lia.
+    change (perr g k (S (S (m - S k))) x)
+      with (add (kabs RA (pev g k (S (S (m - S k))) x)) (mul (kabs RA x) (perr g (S k) (S (m - S k)) x))).
+    cbn [pev pdv phv] in *.
+    rewrite <- Hb, <- Hd, <- Hf, <- He. change (g k) with (nth k a zero). rewrite <- Haj.
+    assert (Eb' : x * b0 + aj = aj + x * b0) by ring.
+    repeat split; try ring. now rewrite Eb'.
 Qed.
 
 Lemma horner_triple_lemma a m x b err d f :
   (m + 1)%nat = length a -> horner3 RA a m x = Ok (b, err, d, f) ->
-  b = ev a x /\ d = dv a x /\ f = hv a x.
+  b = ev a x /\ d = dv a x /\ f = hv a x /\ err = errv a x.
 Proof.
-  intros Hm E. apply horner3_index in E. destruct E as (_ & Hb & Hd & Hf). unfold ix in Hb, Hd, Hf.
-  rewrite pev_map in Hb. rewrite pdv_map in Hd. rewrite phv_map in Hf.
-  rewrite map_nth_seq in Hb, Hd, Hf by lia.
-  rewrite Hm in Hb, Hd, Hf. cbn [skipn] in Hb, Hd, Hf. rewrite firstn_all in Hb, Hd, Hf.
+  intros Hm E. apply horner3_index in E. destruct E as (_ & Hb & Hd & Hf & He). unfold ix in Hb, Hd, Hf, He.
+  rewrite pev_map in Hb. rewrite pdv_map in Hd. rewrite phv_map in Hf. rewrite perr_map in He.
+  rewrite map_nth_seq in Hb, Hd, Hf, He by lia.
+  rewrite Hm in Hb, Hd, Hf, He. cbn [skipn] in Hb, Hd, Hf, He. rewrite firstn_all in Hb, Hd, Hf, He.
   auto.
+Qed.
+
+(* the meaning of the code's convergence test: |p(x)| <= EPS-scaled running error bound *)
+Lemma conv_test_meaning a x :
+  1 <= length a -> OV.Proofs.RootsMore.conv_test RA a (length a - 1) x ->
+  leb (kabs RA (ev a x)) (mul (errv a x) (reps RA)) = true.
+Proof.
+  intros Ha (b & err & d & f & E & Ht).
+  apply horner_triple_lemma in E; [|lia]. destruct E as (-> & _ & _ & ->). exact Ht.
+Qed.
+
+Lemma laguer_converged_meaning a x l :
+  laguer RA a x = Ok l -> lwhy l = Converged ->
+  leb (kabs RA (ev a (lx l))) (mul (errv a (lx l)) (reps RA)) = true.
+Proof.
+  intros E Hw.
+  assert (Ha : 1 <= length a).
+  { unfold laguer in E. apply bind_ok in E as (m & Em & _). unfold usub in Em.
+    destruct (Nat.leb_spec 1 (length a)); [assumption | discriminate]. }
+  apply conv_test_meaning; [exact Ha|]. eapply laguer_converged_lemma; eauto.
+Qed.
+
+Lemma polished_converged_meaning coeffs rs tr j l :
+  poly_solve RA coeffs true = Ok (rs, tr) -> j < length coeffs - 1 ->
+  nth_error tr (length tr - (length coeffs - 1) + j) = Some l -> lwhy l = Converged ->
+  leb (kabs RA (ev coeffs (nth j rs zero))) (mul (errv coeffs (nth j rs zero)) (reps RA)) = true.
+Proof.
+  intros E Hj Hl Hw. apply conv_test_meaning; [lia|].
+  exact (polished_converged_lemma RA coeffs rs tr j l E Hj Hl Hw).
 Qed.
 
 (* ---------- forward deflation ---------- *)
